@@ -443,8 +443,8 @@ var defE2E = pbt.Def[*S]{Name: "responder-status", Gen: gen, Run: judgeE2E}
 
 func TestProp(t *testing.T) {
 	outerT = t
-	pbt.Check(t, run, def, 60000, 10000000)
-	pbt.Check(t, run, defE2E, 2000, 200000)
+	pbt.Check(t, run, def, 60000, 5000000)
+	pbt.Check(t, run, defE2E, 2000, 100000)
 }
 
 func TestReplay(t *testing.T) {
